@@ -60,13 +60,17 @@ def decode_msg(d):
         elif t == 'b':
             n = struct.unpack('>i', d[p:p + 4])[0]; p += 4
             blob = d[p:p + n]; p += n; p += (-p) % 4
-            if blob[:1] == b'/':
-                try:
-                    args.append(['b', decode_msg(blob)])
-                except Exception:
-                    args.append(['b', ['#', n]])
-            else:
-                args.append(['b', ['#', n]])
+            sub = None
+            try:
+                # a nested message (the library turns any list whose first item is a str into one)
+                a2, q = _rd_str(blob, 0)
+                if a2 and q < len(blob) and blob[q:q + 1] == b',' and all(32 < c < 127 for c in a2.encode('latin1')):
+                    sub = decode_msg(blob)
+                    if any(x[0] == '?' for x in sub[1]):
+                        sub = None
+            except Exception:
+                sub = None
+            args.append(['b', sub if sub is not None else ['#', n]])
         elif t in '[]':
             args.append([t])
         elif t == 'T':
